@@ -475,6 +475,9 @@ package flamego
 //@     ite(len(vals) == 2 && (rvKind(vals[0]) == 24 || isBytesRV(vals[0])), ite(implements(rvIface(vals[1]), type(error)), vals[1], vals[0]),
 //@         reflect.Value(nil))))
 //@ define hasIntStatus(vals []reflect.Value) bool = len(vals) == 2 && rvKind(vals[0]) == 2
+// the body text of a non-error result, and when a result counts as empty
+//@ define bodyRV(vals []reflect.Value) string = ite(isBytesRV(derefRV(respRV(vals))), rvBytes(derefRV(respRV(vals))), rvString(derefRV(respRV(vals))))
+//@ define emptyRV(vals []reflect.Value) bool = !rvValid(respRV(vals)) || rvZero(respRV(vals)) || len(bodyRV(vals)) == 0
 //@ define derefRV(v reflect.Value) reflect.Value = ite(rvKind(v) == 20 || rvKind(v) == 22, rvElem(v), v)
 // the writer the default return handler writes to: whatever the injector holds for http.ResponseWriter
 //@ define rhWriter(c Context) http.ResponseWriter =
@@ -488,11 +491,11 @@ package flamego
 //@   ensures hasIntStatus(vals) ==> rhWriter(c).firstStatus == rvInt(vals[0]) && rhWriter(c).hdrCount >= 1
 //@   ensures isErrRV(respRV(vals)) ==> rhWriter(c).lastWrite == errText(rvIface(respRV(vals)).(error)) && rhWriter(c).hdrCount == ite(hasIntStatus(vals), 2, 1)
 //@   ensures isErrRV(respRV(vals)) && !hasIntStatus(vals) ==> rhWriter(c).firstStatus == 500
-//@   ensures !isErrRV(respRV(vals)) && (!rvValid(respRV(vals)) || rvZero(respRV(vals))) ==> rhWriter(c).hdrCount == ite(hasIntStatus(vals), 1, 0)
-//@   ensures !isErrRV(respRV(vals)) && rvValid(respRV(vals)) && !rvZero(respRV(vals)) ==> rhWriter(c).hdrCount == 1 && (!hasIntStatus(vals) ==> rhWriter(c).firstStatus == 200)
-//@   ensures !isErrRV(respRV(vals)) && (!rvValid(respRV(vals)) || rvZero(respRV(vals))) ==> rhWriter(c).bodyBytes == old(rhWriter(c).bodyBytes)
-//@   ensures !isErrRV(respRV(vals)) && rvValid(respRV(vals)) && !rvZero(respRV(vals)) ==>
-//@       rhWriter(c).lastWrite == ite(isBytesRV(derefRV(respRV(vals))), rvBytes(derefRV(respRV(vals))), rvString(derefRV(respRV(vals))))
+// "nil, empty and zero results write nothing" - taken from the statement: an invalid or zero value, or one whose body text is empty
+//@   ensures !isErrRV(respRV(vals)) && emptyRV(vals) ==> rhWriter(c).hdrCount == ite(hasIntStatus(vals), 1, 0)
+//@   ensures !isErrRV(respRV(vals)) && emptyRV(vals) ==> rhWriter(c).bodyBytes == old(rhWriter(c).bodyBytes)
+//@   ensures !isErrRV(respRV(vals)) && !emptyRV(vals) ==> rhWriter(c).hdrCount == 1 && (!hasIntStatus(vals) ==> rhWriter(c).firstStatus == 200)
+//@   ensures !isErrRV(respRV(vals)) && !emptyRV(vals) ==> rhWriter(c).lastWrite == bodyRV(vals)
 
 // the built-in fast path for func() (int, string) yields the same abstract values as a reflective call would
 //@ functype teapotInvoker() a, b
